@@ -280,11 +280,98 @@ func c13replace(r *vres.R) {
 	}
 }
 
+// c13lateKind: an API server serves a custom kind only while its CustomResourceDefinition
+// exists, so whether a document's kind is known depends on the documents before it.
+type c13lateKind struct{ *vfx.WireClient }
+
+var (
+	c13crdGVR = schema.GroupVersionResource{Group: "apiextensions.k8s.io", Version: "v1", Resource: "customresourcedefinitions"}
+	c13ctGVR  = schema.GroupVersionResource{Group: "stable.example.com", Version: "v1", Resource: "crontabs"}
+)
+
+func (c c13lateKind) GroupVersionResource(apiVersion, kind string) (schema.GroupVersionResource, error) {
+	if kind != "CronTab" {
+		return c.WireClient.GroupVersionResource(apiVersion, kind)
+	}
+	if _, err := c.WireClient.Client.Dynamic().Resource(c13crdGVR).Get(context.TODO(), "crontabs.stable.example.com", metav1.GetOptions{}); err != nil {
+		return schema.GroupVersionResource{}, fmt.Errorf("apiVersion '%s', kind '%s' is not supported by cluster", apiVersion, kind)
+	}
+	return c13ctGVR, nil
+}
+
+// c13dependent: documents are applied one after another, each with its own effect, so a later
+// document may rely on what an earlier one has done to the cluster - here: the first document
+// installs the definition of the kind the next ones work with - and a document that fails
+// (the kind is not served yet) does not keep the others from being applied.
+func c13dependent(r *vres.R) {
+	crd := `{"operation":"CreateOrUpdate","object":{"apiVersion":"apiextensions.k8s.io/v1","kind":"CustomResourceDefinition","metadata":{"name":"crontabs.stable.example.com"},"spec":{"group":"stable.example.com","scope":"Namespaced","names":{"kind":"CronTab","plural":"crontabs"}}}}`
+	mk := func(name string) string {
+		return `{"operation":"Create","object":{"apiVersion":"stable.example.com/v1","kind":"CronTab","metadata":{"namespace":"default","name":"` + name + `"},"spec":{"image":"old"}}}`
+	}
+	patch := `{"operation":"MergePatch","apiVersion":"stable.example.com/v1","kind":"CronTab","namespace":"default","name":"c1","mergePatch":{"spec":{"image":"new"}}}`
+	del := `{"operation":"DeleteNonCascading","apiVersion":"stable.example.com/v1","kind":"CronTab","namespace":"default","name":"c1"}`
+	cases := []struct {
+		id      string
+		docs    []string
+		wantErr bool
+		want    string
+	}{
+		{"crd;create;patch", []string{crd, mk("c1"), patch}, false, "crd c1=new"},
+		{"crd;create;create2;delete", []string{crd, mk("c1"), mk("c2"), del}, false, "crd c2=old"},
+		{"create;crd;create2", []string{mk("c1"), crd, mk("c2")}, true, "crd c2=old"},
+		{"create", []string{mk("c1")}, true, ""},
+		{"patch;crd", []string{patch, crd}, true, "crd"},
+	}
+	for _, enc := range []string{"json", "yaml"} {
+		for _, cse := range cases {
+			key := "dependent|" + enc + "|" + cse.id
+			if !r.Want(key) {
+				continue
+			}
+			text := strings.Join(cse.docs, "\n")
+			if enc == "yaml" {
+				text = "---\n" + strings.Join(cse.docs, "\n---\n") + "\n" // a JSON document is a YAML document
+			}
+			client := vfx.NewMiniCluster()
+			r.Eval(1)
+			r.Transition(int64(len(cse.docs)))
+			ops, err := ParseOperations([]byte(text))
+			if err != nil {
+				r.Violation("C13 valid-stream-rejected encoding="+enc, key, err.Error(), nil)
+				continue
+			}
+			err = NewObjectPatcher(c13lateKind{vfx.NewWireClient(client)}, log.NewNop()).ExecuteOperations(ops)
+			var have []string
+			if _, e := client.Dynamic().Resource(c13crdGVR).Get(context.TODO(), "crontabs.stable.example.com", metav1.GetOptions{}); e == nil {
+				have = append(have, "crd")
+			}
+			for _, n := range []string{"c1", "c2"} {
+				if o, e := client.Dynamic().Resource(c13ctGVR).Namespace("default").Get(context.TODO(), n, metav1.GetOptions{}); e == nil {
+					img, _, _ := unstructured.NestedString(o.Object, "spec", "image")
+					have = append(have, n+"="+img)
+				}
+			}
+			got := strings.Join(have, " ")
+			if got != cse.want {
+				r.Violation("C13 later-document-relies-on-earlier encoding="+enc, key, fmt.Sprintf("documents [%s]: the cluster ends with [%s] (error: %v), applying them one after another gives [%s]", cse.id, got, err, cse.want), nil)
+				continue
+			}
+			if (err != nil) != cse.wantErr {
+				r.Violation("C13 apply-error-report encoding="+enc, key, fmt.Sprintf("documents [%s]: error %v, expected an error: %v", cse.id, err, cse.wantErr), nil)
+				continue
+			}
+			r.State(key)
+			r.Outcome(key+"|"+got, true)
+		}
+	}
+}
+
 func TestVerifC13(t *testing.T) {
 	r := vres.New("c13")
 	defer r.Finish()
 	if s, _ := vres.Shard(); s == 0 || r.Replaying() {
 		c13replace(r)
+		c13dependent(r)
 	}
 	alpha := c13alphabet()
 	var usable []c13op
